@@ -1,8 +1,8 @@
 SPECIFICATION Spec
 CONSTANTS
   NPaths = 3
-  Contents = {"ClsDoc", "ClsPlain", "ClsField", "GInt", "ReqB", "UseFoo", "ClsSub", "Mod"}
-  Ops = {"unset", "remove"}
+  Contents = {"ClsDoc", "ClsField", "GInt", "ReqB"}
+  Ops = {"update", "unset", "remove"}
   MaxSteps = 3
   EditDist = 3
   Batch = FALSE
